@@ -19,7 +19,7 @@ ASSUMPTIONS = ['layout quality is not asserted, only the stated postconditions',
 
 def budget(tier):
     if tier == 'thorough':
-        return dict(examples=1500, shards=16, procs=16)
+        return dict(examples=3000, shards=16, procs=16)
     return dict(examples=450, shards=4, procs=4)
 
 
